@@ -23,7 +23,9 @@ PROP = {'rule': 'rapid-generated cases. history: rapid state machine over one no
          'device has free must be served; non-trivial = a GPU filled to exactly 100 % with non-integral share bytes and >=3 served. '
          'jointAllocate: GPU+RDMA joint allocation (annotation) on 1-3 PCIe switches with 0-2 GPUs and 0-4 NICs each, used/full/unhealthy '
          'devices; non-trivial = a preferred switch hosts more NICs than there are preferred switches, or usage with at most one fitting '
-         'NIC to spare. All informer deletes are delivered either as the object or as a cache.DeletedFinalStateUnknown value. '
+         'NIC to spare. jointReserve: 1-4 joint pods (whole or shared GPU + rdma, sometimes fpga) through PreFilter/Filter/Reserve with the '
+         'Reserve phase recorded in the cycle state as the framework extender does, on nodes with or without the '
+         'secondary-device-well-planned label; non-trivial = a pod served on a well-planned node, or >=2 pods served. All informer deletes are delivered either as the object or as a cache.DeletedFinalStateUnknown value. '
          'distinct = FNV-64 fingerprint of the full history / triple.',
  'assumptions': ['GPU devices report gpu-core=100, gpu-memory-ratio=100 and gpu-memory (2^30..2^36 bytes) together, or nothing (zero/unhealthy); '
                  'RDMA/FPGA report their single resource',
@@ -58,7 +60,8 @@ PROP = {'rule': 'rapid-generated cases. history: rapid state machine over one no
                       {'run': 'TestVerifC07PluginHistory', 'quick': 2000, 'thorough': 6000, 'steps': 20},
                       {'run': 'TestVerifC07ReservationHistory', 'quick': 2000, 'thorough': 6000, 'steps': 22},
                       {'run': 'TestVerifC07RatioFill', 'quick': 2000, 'thorough': 6000},
-                      {'run': 'TestVerifC07JointAllocate', 'quick': 6000, 'thorough': 20000}]}],
+                      {'run': 'TestVerifC07JointAllocate', 'quick': 6000, 'thorough': 20000},
+                      {'run': 'TestVerifC07JointReserve', 'quick': 3000, 'thorough': 10000}]}],
  'manifest': {'technique': 'property-based testing (rapid): model-based state machine over the device cache with a ledger oracle after every '
                            'step, plus generated (inventory, usage, request) triples with a validity + completeness oracle for single allocations',
               'text': 'Generated-history search: allocate (real AutopilotAllocator/GPUAllocator, both the direct and the nodeDevice.filter path) + '
